@@ -102,3 +102,16 @@ check("C05",
       "hydrogens are not compared; quick tier covers the pair set within a time budget (seeded order)",
       "TLA+ spec (MolEdit) model-checked with TLC; spec->code replay of the transitions with identity-keyed projection",
       "DESIGN.md 4/C05", modules=("MolEdit", "MCMolEdit"))
+
+check("C06",
+      "TLC exhausts MolHeap.tla (objects of the seven structure classes, copy routes construct / pickle / deepcopy / upcast / "
+      "concatenate / ensemble-from-molecule / conformer view, one or two mutations of any cell kind on either side, <=3 live "
+      "objects) for NoSharedCell, Independent, CopyEqual, ViewWritesThrough.  Every (heap state, action) pair reached within "
+      "the budget is replayed on real objects: a mutation bumps a counter stored in the real cell (attribute dict of object / "
+      "atom / bond, nested attribute value, label, bond type, coordinate, charge, weight, atom list); after each step the "
+      "counters of ALL live objects must equal the model's, a deep snapshot comparison decides `copy equals source` (incl. "
+      "charges, attributes, parents, indices) at copy time and `nothing else changed` for every other object at mutation time.",
+      "bounded heaps (<=3 objects); first atom / first bond / element [0,0] represent their cell kind, deep snapshots cover "
+      "the rest; copy.copy is not a copy route; join is covered by C12 (inputs untouched)",
+      "TLA+ spec (MolHeap) model-checked with TLC; spec->code replay with counters stored in the real cells + deep snapshots",
+      "DESIGN.md 4/C06", modules=("MolHeap", "MCMolHeap"))
